@@ -130,6 +130,8 @@ Ltac split_step o :=
          | |- context [match sv ?st ?s with _ => _ end] => destruct (sv st s) eqn:?
          | |- context [if cancel_drop_removes ?x then _ else _] => destruct (cancel_drop_removes x) eqn:?
          | |- context [if reload_prunes ?x then _ else _] => destruct (reload_prunes x) eqn:?
+         | |- context [if cancel_retries ?x then _ else _] => destruct (cancel_retries x) eqn:?
+         | |- context [match csm_lookup ?k ?m with _ => _ end] => destruct (csm_lookup k m) eqn:?
          end; auto.
 
 Lemma own_init : Own init.
@@ -609,6 +611,23 @@ Proof.
   split; auto. intros k. unfold cancel_out. rewrite A. reflexivity.
 Qed.
 
+(* ---- delivery *)
+
+(** Lookup and the single delivery attempt are one step: a request whose connection cannot be
+    established leaves no trace ... *)
+Lemma single_attempt : cancel_retries v = false -> forall st k, step E v st (CancelRefused k) = st.
+Proof. intros CR st k. cbn. rewrite CR. reflexivity. Qed.
+
+(** ... so nothing is ever waiting to be delivered later. *)
+Lemma no_pending : cancel_retries v = false -> forall ops, pending (run E v ops) = [].
+Proof.
+  intros CR ops. unfold run. apply (fold_inv (fun st => pending st = [])); [|reflexivity].
+  intros st o H. split_step o; cbn [pending]; try congruence. rewrite H. reflexivity.
+Qed.
+
+Lemma no_late_delivery : cancel_retries v = false -> forall ops, late_out (run E v ops) = Silent.
+Proof. intros CR ops. unfold late_out. rewrite no_pending; auto. Qed.
+
 End Invariants.
 
 (* ------------------------------------------------------------------ witnesses *)
@@ -629,13 +648,13 @@ Qed.
     Whatever the other switch is. *)
 Definition window_ops : list op := [Checkout 0 0; ExitDropGuard 0 true; Checkout 1 0].
 
-Lemma exit_window_refuted : forall cd rp,
+Lemma exit_window_refuted : forall cd rp cr,
   exists ops c1 c2 s, c1 <> c2 /\ key ex_env c1 <> key ex_env c2 /\
-    sv (run ex_env (mkVariant cd false rp) ops) s = HeldBy c2 /\
-    cphase (cl (run ex_env (mkVariant cd false rp) ops) c1) = Exiting /\
-    cancel_out (run ex_env (mkVariant cd false rp) ops) (key ex_env c1) = Contact (tgt ex_env s).
+    sv (run ex_env (mkVariant cd false rp cr) ops) s = HeldBy c2 /\
+    cphase (cl (run ex_env (mkVariant cd false rp cr) ops) c1) = Exiting /\
+    cancel_out (run ex_env (mkVariant cd false rp cr) ops) (key ex_env c1) = Contact (tgt ex_env s).
 Proof.
-  intros cd rp. exists window_ops, 0, 1, 0. destruct cd, rp; vm_compute; repeat split; try discriminate; reflexivity.
+  intros cd rp cr. exists window_ops, 0, 1, 0. destruct cd, rp, cr; vm_compute; repeat split; try discriminate; reflexivity.
 Qed.
 
 (** The cancel-once defect of "the drop of the value that served a CancelRequest removes the key
@@ -644,11 +663,11 @@ Qed.
     holds s0.  Whatever the other switch is. *)
 Definition once_ops : list op := [Checkout 0 0; Cancel (key ex_env 0); CancelDrop (key ex_env 0)].
 
-Lemma cancel_once_refuted : forall ef rp,
-  exists ops c s, sv (run ex_env (mkVariant true ef rp) ops) s = HeldBy c /\
-    outcomes ex_env (mkVariant true ef rp) ops = [Contact (tgt ex_env s)] /\
-    cancel_out (run ex_env (mkVariant true ef rp) ops) (key ex_env c) = Silent.
-Proof. intros ef rp. exists once_ops, 0, 0. destruct ef, rp; vm_compute; repeat split; reflexivity. Qed.
+Lemma cancel_once_refuted : forall ef rp cr,
+  exists ops c s, sv (run ex_env (mkVariant true ef rp cr) ops) s = HeldBy c /\
+    outcomes ex_env (mkVariant true ef rp cr) ops = [Contact (tgt ex_env s)] /\
+    cancel_out (run ex_env (mkVariant true ef rp cr) ops) (key ex_env c) = Silent.
+Proof. intros ef rp cr. exists once_ops, 0, 0. destruct ef, rp, cr; vm_compute; repeat split; reflexivity. Qed.
 
 (** A reload that prunes the map by address (a mutant; the code does not do this): c0 runs a
     statement on s0, the configuration is reloaded so that s0's address leaves it, and a
@@ -656,12 +675,39 @@ Proof. intros ef rp. exists once_ops, 0, 0. destruct ef, rp; vm_compute; repeat 
     connection lives until the transaction ends).  Whatever the other switches are. *)
 Definition reload_ops : list op := [Checkout 0 0; Reload [0]].
 
-Lemma reload_prune_refuted : forall cd ef,
-  exists ops c s, sv (run ex_env (mkVariant cd ef true) ops) s = HeldBy c /\
-    cancel_out (run ex_env (mkVariant cd ef true) ops) (key ex_env c) = Silent.
-Proof. intros cd ef. exists reload_ops, 0, 0. destruct cd, ef; vm_compute; split; reflexivity. Qed.
+Lemma reload_prune_refuted : forall cd ef cr,
+  exists ops c s, sv (run ex_env (mkVariant cd ef true cr) ops) s = HeldBy c /\
+    cancel_out (run ex_env (mkVariant cd ef true cr) ops) (key ex_env c) = Silent.
+Proof. intros cd ef cr. exists reload_ops, 0, 0. destruct cd, ef, cr; vm_compute; split; reflexivity. Qed.
+
+(** Retrying the throw-away connection with the target copied at lookup time (a mutant; the code
+    makes one attempt): c0 runs a statement on s0, the connection of its CancelRequest is refused,
+    c0's statement ends, c1 borrows s0, and the retry then delivers c0's request to the session
+    that now executes c1's work.  Whatever the other switches are. *)
+Definition late_ops : list op :=
+  [Checkout 0 0; CancelRefused (key ex_env 0); ReleaseNormal 0 true; Checkout 1 0].
+
+Lemma late_delivery_refuted : forall cd ef rp,
+  exists ops c1 c2 s, c1 <> c2 /\ key ex_env c1 <> key ex_env c2 /\
+    held (cl (run ex_env (mkVariant cd ef rp true) ops) c1) = None /\
+    cancel_out (run ex_env (mkVariant cd ef rp true) ops) (key ex_env c1) = Silent /\
+    sv (run ex_env (mkVariant cd ef rp true) ops) s = HeldBy c2 /\
+    late_out (run ex_env (mkVariant cd ef rp true) ops) = Contact (tgt ex_env s).
+Proof.
+  intros cd ef rp. exists late_ops, 0, 1, 0.
+  destruct cd, ef, rp; vm_compute; repeat split; try discriminate; reflexivity.
+Qed.
 
 (* ------------------------------------------------------------------ the code as it is *)
+
+Lemma code_no_late_delivery : forall E ops,
+  pending (run E code_variant ops) = [] /\ late_out (run E code_variant ops) = Silent /\
+  (forall st k, step E code_variant st (CancelRefused k) = st).
+Proof.
+  intros E ops. split; [apply no_pending; reflexivity|].
+  split; [apply no_late_delivery; reflexivity|]. intros st k. apply single_attempt. reflexivity.
+Qed.
+
 
 Lemma code_targets_holder : forall E ops k t,
   cancel_out (run E code_variant ops) k = Contact t ->
